@@ -314,3 +314,54 @@ func KeepUnder(atom func(ast.Expr) (val, known bool)) func(b *cfg.Block, i int) 
 		return (i == 0) == v
 	}
 }
+
+// MustReachExit solves the backward must-analysis "every feasible path from
+// the end of block b to a normal function exit passes a block for which gen
+// is true". Blocks that end in panic (no successors, last node a call of the
+// builtin panic) are vacuous: the function does not return through them.
+func (g *Graph) MustReachExit(gen func(b *cfg.Block) bool) []bool {
+	n := len(g.Blocks)
+	out := make([]bool, n)
+	gens := make([]bool, n)
+	exit := make([]bool, n)
+	for _, b := range g.Blocks {
+		gens[b.Index] = gen(b)
+		out[b.Index] = true
+		if len(g.succs(b)) == 0 {
+			isPanic := false
+			if len(b.Nodes) > 0 {
+				if es, ok := b.Nodes[len(b.Nodes)-1].(*ast.ExprStmt); ok {
+					if c, ok := es.X.(*ast.CallExpr); ok && IsPanic(g.Info, c) {
+						isPanic = true
+					}
+				}
+			}
+			if !isPanic {
+				exit[b.Index] = true
+				out[b.Index] = false
+			}
+		}
+	}
+	for changed := true; changed; {
+		changed = false
+		for i := n - 1; i >= 0; i-- {
+			b := g.Blocks[i]
+			if exit[i] {
+				continue
+			}
+			ss := g.succs(b)
+			if len(ss) == 0 {
+				continue
+			}
+			v := true
+			for _, s := range ss {
+				v = v && (gens[s.Index] || out[s.Index])
+			}
+			if v != out[i] {
+				out[i] = v
+				changed = true
+			}
+		}
+	}
+	return out
+}
